@@ -106,7 +106,7 @@ def run(F, S, R, tier):
                     key = "prov/key/%s" % K.short(b.root or b.path)
                     if K.src_match(srcs, [r"call:.*TransactionView::witness_hash$"]):
                         R.ok(key, "%s keys the verification cache by TransactionView::witness_hash()" % K.short(b.path), [c.where()])
-                    elif K.src_match(srcs, [r"upvar:ret$|param:ret$|var:ret$"]) and "update_cache" in (b.root or b.path):
+                    elif K.src_match(srcs, [r"^param:\d+$|^upvar:"]) and "update_cache" in (b.root or b.path):
                         # update_cache(ret): the (key, value) pairs were built by the verifier closure (checked by prov/key/block-writeback)
                         R.ok(key, "%s inserts the (witness hash, result) pairs built by the verifier" % K.short(b.path), [c.where()])
                     else:
@@ -125,7 +125,7 @@ def run(F, S, R, tier):
             if wh and put_cl:
                 pc = [c for c in put_cl[0].calls if is_vcache_call(c) and c.callee.endswith("::put")][0]
                 ks, vs = put_cl[0].operand_sources(pc.args[1]), put_cl[0].operand_sources(pc.args[2])
-                if K.src_match(ks, [r"upvar:wtx_hash"]) and K.src_match(vs, [r"upvar:verified"]):
+                if K.src_match(ks, [r"call:.*TransactionView::witness_hash$|vty:ckb_gen_types::generated::blockchain::Byte32$"]) and K.src_match(vs, [r"vty:ckb_verification::cache::Completed$"]):
                     R.ok("prov/pool-put", "the pool caches (witness hash -> verified result of this transaction)", [pc.where()])
                 else:
                     R.bad("prov/pool-put", "the pool's cache insert is not (wtx_hash, verified)", [pc.where()])
@@ -165,10 +165,10 @@ def run(F, S, R, tier):
             for x, c in puts:
                 ks = x.operand_sources(c.args[1])
                 vs = x.operand_sources(c.args[2])
-                if not K.src_match(ks, [r"param:(hash|out_point)|upvar:(hash|key)|var:key|call:.*to_cell_key$"]):
+                if not K.src_match(ks, [r"^param:2$|call:.*to_cell_key$|vty:&ckb_gen_types::generated::blockchain::Byte32$|vty:alloc::vec::Vec<u8>$"]):
                     ok = False
                     R.bad(key + "/key", "%s fills the cache under a key that is not the lookup key" % fn, [c.where()])
-                if not (K.src_match(vs, [r"call:.*ChainStore::(get|get_iter)$"]) or K.src_match(vs, [r"param:\w+|upvar:\w+|var:(ret|cached|data|uncles|header|hashes)"])):
+                if not (K.src_match(vs, [r"call:.*ChainStore::(get|get_iter)$"]) or K.src_match(vs, [r"^param:\d+$|^upvar:|^vty:"])):
                     ok = False
                     R.bad(key + "/value", "%s fills the cache with a value that is not the row just read" % fn, [c.where()])
             if ok:
